@@ -4,7 +4,7 @@
    destroyed values predicted by the specification). *)
 From SV Require Import Base.ListX Store.Raw Store.RawRefine Store.CleanProps Store.Masked Store.StoreInv Store.Bag Store.Ledger
   Store.ClearLedger Store.DeadHandle
-  World.Env World.SopLedger World.WorldSpec World.World World.Simulation World.NoStuck.
+  World.Env World.SopLedger World.WorldLedger World.HistoryLedger World.WorldSpec World.World World.Simulation World.NoStuck.
 From Coq Require Import Sorting.Permutation.
 
 (* no operation ever reads a slot that was never written, was moved out, or lies outside the
@@ -150,6 +150,36 @@ Theorem C08_every_storage_operation_conserves : forall ms m av ent so c, LInvS m
   exists m', LInvS ms' m' /\ conserves m m' (sop_ins ms av ent so) (sop_rets so out) c c'.
 Proof. exact sop_conserves. Qed.
 
+(* ---- whole histories, on the specification world (every storage the plain map; the implementation's results and
+   destroyed values are compared with it on every explored history): for every history without join operations
+   (they have their own cell-level theorems, C06) in which components are registered before use, whatever the world
+   holds at the end, everything handed back and everything destroyed along the way are - as multisets - what it
+   held at the start plus everything moved in ---- *)
+Theorem C08_history_conserves : forall tr w L0, WInv w -> regs_ok w tr = true ->
+  forallb (fun p => ledger_op (fst p)) tr = true -> env_content (s_env w) L0 ->
+  exists Lf, env_content (s_env (fst (srun w tr))) Lf /\
+             Permutation (Lf ++ run_rets w tr ++ run_drops w tr) (L0 ++ run_ins w tr).
+Proof. exact history_conserves. Qed.
+
+(* from the empty world to the world being dropped: every value moved in was handed back or destroyed, exactly once
+   (neither both nor twice nor leaked: the two multisets are equal) *)
+Theorem C08_everything_handed_back_or_destroyed_exactly_once : forall tr,
+  regs_ok (s_init_env true) tr = true -> forallb (fun p => ledger_op (fst p)) tr = true ->
+  keys_of (s_env (fst (srun (s_init_env true) tr))) = [] ->
+  Permutation (run_rets (s_init_env true) tr ++ run_drops (s_init_env true) tr) (run_ins (s_init_env true) tr).
+Proof. exact everything_handed_back_or_destroyed. Qed.
+
+Example C08_history_nonvacuous :
+  let os := [OStore (SRegister 0); OCreate [(0, (1, 10%Z))]; OCreate [(0, (2, 20%Z))];
+             OStore (SInsert 0 0%nat (3, 30%Z)); OStore (SRemove 0 1%nat); ODelete 0%nat; ODropWorld] in
+  let choices := [[]; [0]; [1]; []; []; []; []] in
+  let outs := snd (srun (s_init_env true) (combine os (map (fun c => WHandles (map (fun i => (i, 1%Z)) c)) choices))) in
+  let tr := combine os outs in
+  regs_ok (s_init_env true) tr = true /\ forallb (fun p => ledger_op (fst p)) tr = true /\
+  keys_of (s_env (fst (srun (s_init_env true) tr))) = [] /\
+  run_ins (s_init_env true) tr = [1; 2; 3] /\ run_rets (s_init_env true) tr = [1; 2] /\ run_drops (s_init_env true) tr = [3].
+Proof. vm_compute. repeat split; reflexivity. Qed.
+
 Example C08_nonvacuous :
   let s := {| v_len := 6; v_slots := NM.add 5 (SInit (13, 3%Z)) (NM.add 2 (SInit (12, 2%Z)) (NM.add 0 (SInit (11, 1%Z)) (NM.empty slot))) |} in
   rev (cx_drops (snd (vec_clean s [0; 2; 5] cx0))) = [11; 12; 13] /\
@@ -175,3 +205,5 @@ Print Assumptions C08_entry_api_conserves.
 Print Assumptions C08_clear_conserves.
 Print Assumptions C08_get_mut_or_default_conserves.
 Print Assumptions C08_every_storage_operation_conserves.
+Print Assumptions C08_history_conserves.
+Print Assumptions C08_everything_handed_back_or_destroyed_exactly_once.
